@@ -240,6 +240,10 @@ class Run:
             # polynomial form (divisors are non-zero by the separately discharged side conditions)
             assertions = [ratfun.clear(a) for a in assertions]
             cleared = True
+        # a proof comes back as soon as it is found, so a generous cap costs nothing on a tree where the property holds; it protects the
+        # verdict against a loaded machine (a query that needs 15 s alone was seen to need > 60 s next to 60 other solver processes)
+        if expect == 'unsat':
+            timeout = timeout * float(os.environ.get('VERIF_TIMEOUT_SCALE', '4'))
         s = z3.Solver()
         s.set('timeout', int(timeout * 1000))
         for a in assertions:
